@@ -7,8 +7,8 @@ point of `lol_html.h` (`CApi.TopOp`), executed by `CApi.topStep` together with e
 `LAST_ERROR` does not belong to the session but to the calling thread: the call is run with the session's
 `lastErr` cleared, on a canonical thread id, and whatever it leaves in that slot is what the thread model
 records in the caller's `World.lastErr` (`save_last_error`, errors.rs:19).  That this is the same as running
-`topStep` with the real thread id on the real slots is `capiThreadParametric` below (proved for the entry points
-that trigger no call-back in `Thm/C18_ThreadsCApi.lean`).
+`topStep` with the real thread id on the real slots is `capiThreadParametric_statement` below, proved in
+`Thm/C18_ThreadsCApi.lean` (`capiThreadParametric`).
 
 `lol_html_take_last_error` is the thread-level `Threads.Op.takeLastError`, not a session call; sessions whose
 handlers call it (reading thread state from user code) are outside `takeFree`.
